@@ -679,8 +679,17 @@ pub fn build_mirror(t: &Trial, pre_mem: &[Vec<u8>]) -> Result<Axecutor, String> 
         for (a, _) in &t.patches {
             cands.push(*a);
         }
+        // (sometimes also exactly at the start of a region: mem_prot below then addresses two areas with one start)
+        let at_starts = (t.gpr[1] ^ t.gpr[2].rotate_left(9)) % 3 == 0;
+        if at_starts {
+            for (i, r) in REGIONS.iter().enumerate() {
+                if i != R_CODE {
+                    cands.push(r.start);
+                }
+            }
+        }
         for a in cands {
-            if region_of(a).is_some() && region_of(a) != Some(R_CODE) && !REGIONS.iter().any(|r| r.start == a) {
+            if region_of(a).is_some() && region_of(a) != Some(R_CODE) && (at_starts || !REGIONS.iter().any(|r| r.start == a)) {
                 let _ = ax.mem_init_zero(a, 0);
             }
         }
